@@ -161,4 +161,14 @@ CLAIMED = {
         note='Partial: maximality under the non-transitive tolerance and outline extraction are validated, not proved. Trusted: Coq '
              'kernel, hand model + correspondence, harness.',
         technique='machine-checked Coq proof about a hand-written executable model + vm_compute correspondence; exact search'),
+    'C16': dict(
+        text='Proved for every orthonormal plane frame: the generated plane embedding is an isometry and preserves dot products; the '
+             '3D closest-point-on-segment routine applied to embedded data returns the embedded result of the 2D routine (same '
+             'parameter, same clamp branch); point_at agrees; both siblings\' subdivide_evenly return n+1 points for all n in 1..500 '
+             '(bit-exact PrimFloat model). Every other shared zero-argument member of the six sibling pairs and the shared '
+             'parametrised methods (closest point, distance, subdivision, intersection, clean-up, containment, join_segments) are '
+             'compared by introspection in the XY plane and in random rational planes.',
+        note='Trusted: Coq kernel (+ primitive floats), py2coq, FloatLoops.v correspondence, harness. Members beyond the proved ones '
+             'are validated.',
+        technique=T_Q),
 }
